@@ -29,11 +29,11 @@ CFG = dict(
                  "7": "an event carried no tag or the tag of another RPC",
                  "8": "not exactly one tagged ConnBegin and ConnEnd for a served connection"},
     rule="chain: recording interceptors with behaviours {Pass, ModCtx, ModReq, ModRep, ModErr, Short e, Twice}: ALL lists of length "
-         "1..3 (thorough: 4) + seeded lists of length 4..6 + all-pass chains 1..6, handler ok / failing, unary and stream, against "
+         "1..3 + seeded lists of length 4..6 (150 per kind; thorough: 1500) + all-pass chains 1..6, handler ok / failing, unary and stream, against "
          "the interceptor installed on a real server; the exported recursion at every index; end to end (real client, Link, real "
          "server, bubbles) with 0..1 client interceptor x server chains of length 0..6; stats: recording handlers (own context key = tag), "
          "1..3 per side: client unary every exit (15 scenarios); client stream failed opens + ALL operation sequences of length<=3 "
-         "(thorough 4) over 13 caller/peer operations + seeded longer; server unary 10 scenarios; server stream ALL handler programs of "
+         "over 13 caller/peer operations + seeded longer; server unary 10 scenarios; server stream ALL handler programs of "
          "length<=3 x {nil, error, io.EOF}; connections; end to end {unary, client-, server-, bidi stream} x {ok, handler error, handler "
          "EOF, cancel, deadline, read failure, failed open, undecodable metadata, server reset} x 1..3 handlers, both sides",
     assumptions=["interceptors are modelled as functions of (next, argument) into a result that carries their effects (event log); "
